@@ -1084,6 +1084,19 @@ def run_dec(t, pre, body, post):
         put('p.decb', E(lambda: to_val(t, T.decode_bytes(body))))
         put('p.decb0', decb0)
 
+    if not isinstance(t, str) and kind(t) in ('bl', 'bv'):
+        # the SHAPE of the backing the bit-field decoder built directly from the chunks of the input (not only its root)
+        def shape():
+            def sh(n, budget):
+                if budget[0] <= 0:
+                    return '...'
+                budget[0] -= 1
+                if n.is_leaf():
+                    return 'L' + bytes(n.merkle_root()).hex()
+                return '(' + sh(n.get_left(), budget) + sh(n.get_right(), budget) + ')'
+            return sh(y.get_backing(), [400])
+        put('p.shape', E(shape))
+
     def redec():
         # every decoded result is the caller's to mutate: mutate it (and some of its sub-values), decode the input again
         first = to_val(t, y)
